@@ -72,7 +72,7 @@ const c14SelfTest = "selftest-race"
 
 var c14SelfShared int
 
-var c14Bases = []string{"idx-cpq", "idx-ceq", "idx-eq", "loop-cp", "loop-cell", "poly-cp", "poly-rel"}
+var c14Bases = []string{"idx-cpq", "idx-ceq", "idx-eq", "idx-eq1", "loop-cp", "loop-cell", "poly-cp", "poly-rel"}
 
 const (
 	c14MaxWorkers    = 64
@@ -145,7 +145,7 @@ var c14Face0 = s2.CellFromCellID(s2.CellIDFromFace(0))
 func c14Build(base string, n int, built bool) *c14Obj {
 	o := &c14Obj{}
 	switch base {
-	case "idx-cpq", "idx-ceq", "idx-eq":
+	case "idx-cpq", "idx-ceq", "idx-eq", "idx-eq1":
 		o.idx = s2.NewShapeIndex()
 		o.shapes = []s2.Shape{
 			s2.RegularLoop(c14LL(10, 20), c14Deg(5), 64),
@@ -273,6 +273,18 @@ func c14Query(base string, o *c14Obj, w, rep int) string {
 			b.s(".")
 			b.f(float64(res.Distance()))
 		}
+	case "idx-eq1":
+		// single-result calls without interiors: nothing but the query's own iterator touches the index
+		// (no ContainsPointQuery is created), so the FIRST thing the optimized search does with a not yet
+		// built index is what is observed here (defect D47: LocatePoint on an iterator that had not
+		// applied the pending updates)
+		t := s2.NewMinDistanceToPointTarget(rp())
+		q := s2.NewClosestEdgeQuery(o.idx, s2.NewClosestEdgeQueryOptions().IncludeInteriors(false))
+		b.f(float64(q.Distance(t)))
+		b.t(q.IsDistanceLess(t, s1.ChordAngleFromAngle(c14Deg(3))))
+		fq := s2.NewFurthestEdgeQuery(o.idx, s2.NewFurthestEdgeQueryOptions().IncludeInteriors(false))
+		ft := s2.NewMaxDistanceToPointTarget(rp())
+		b.f(float64(fq.Distance(ft)))
 	case "loop-cp":
 		for j := 0; j < 3; j++ {
 			b.t(o.loop.ContainsPoint(rp()))
